@@ -44,6 +44,7 @@ package hash
 //@   loop 1 entry [starts-at-zero] i == 0
 //@   loop 1 invariant 0 <= i && i <= h.replicas
 //@   loop 1 iteration-ensures [only-own-positions] len(h.keys) == at_head(len(h.keys)) || (len(h.keys) == at_head(len(h.keys)) - 1 && sx < at_head(len(h.keys)) && at_head(h.keys[sx]) == hv)
+//@   loop 1 iteration-ensures [own-position-always-cut] sx < at_head(len(h.keys)) && at_head(h.keys[sx]) == hv ==> len(h.keys) == at_head(len(h.keys)) - 1
 //@   loop 1 iteration-ensures [prefix-kept] forall(j, 0, sx, j < len(h.keys) ==> h.keys[j] == at_head(h.keys[j]))
 //@   loop 1 iteration-ensures [suffix-shifted] len(h.keys) == at_head(len(h.keys)) - 1 ==> forall(j, sx, len(h.keys), h.keys[j] == at_head(h.keys[j + 1]))
 //@   loop 1 iteration-ensures [ring-entry] calls(h.removeRingNode, hv, nodeRepr) == 1
